@@ -142,6 +142,14 @@ def make_int_unops():
     return ents
 
 
+def _pow_reuse(k):
+    """operands must not be altered by an operation: use the base again after base ** secret"""
+    x = k.S("x")
+    y = k.S("y")
+    x ** y
+    return [x * 3, abs(x), x < 0]
+
+
 def _rshift_reuse(k):
     x = k.S("x")
     g = k.S("g")
@@ -206,6 +214,10 @@ def make_widths(n):
     ents.append(Entry("int_rshift_after_guarded_rshift", lambda k: _rshift_reuse(k), ("x", "g"),
                       ref=lambda k: k.v("x") >> 1, dom=lambda k: nonneg_bits(k.v("x"), k.n),
                       assume=lambda k: [(k.v("g") == 0) | (k.v("g") == 1)], tags={"int", "bits", "rshift", "reuse"}))
+    ents.append(Entry("int_pow_ss_then_reuse_base", lambda k: _pow_reuse(k), ("x", "y"),
+                      ref=lambda k: [k.v("x") * 3, abs(k.v("x")), k.v("x") < 0],
+                      dom=lambda k: fits(k.v("x"), k.n - 1) & nonneg_bits(k.v("y"), k.n),
+                      tags={"int", "reuse", "pow", "ss"}))
     ents.append(Entry("int_to_bits_default", lambda k: k.S("x").to_bits(), ("x",),
                       ref=lambda k: [(k.v("x") >> i) & 1 for i in range(k.n)],
                       dom=lambda k: nonneg_bits(k.v("x"), k.n), tags={"int", "bits", "to_bits"}))
